@@ -93,6 +93,9 @@ func (s *session) exec(op string) string {
 					delete(s.chanPri, oc)
 				}
 			}
+			// from now on p is not a configured priority: the divider call RemoveInput makes
+			// must not list it any more (C15)
+			s.config[p] = false
 			s.v1.RemoveInput(p)
 		default:
 			return "bad-op"
